@@ -70,7 +70,9 @@ def replay_chunk(args):
         keep = False
         try:
             rnd = random.Random(f"{seed}-{si}")
-            m = scen.Mat(sc, base, seed=rnd.random())
+            # every other scenario compiles its second main as C++: headers are then reached from includers of
+            # different languages within one run
+            m = scen.Mat(sc, base, seed=rnd.random(), ext_of=({"src/m2.c": ".cpp"} if si % 2 else None))
             tags = scen.features(sc) | {"c08"}
             if "argv.forced_name_beside_main" in tags:
                 # the -include look-up deviation is C04's recorded finding; it says nothing about isolation
@@ -111,6 +113,13 @@ def replay_chunk(args):
             # (c) permuted command order / platform order
             rev = {p: list(reversed(conf[p])) for p in reversed(list(conf))}
             check(rev, exp, "reversed")
+            # (c') a further platform without any command (an empty compilation database) changes nothing
+            for first in (True, False):
+                cz = {"zz_empty": []}
+                cz = {**cz, **conf} if first else {**conf, **cz}
+                ez = dict(exp)
+                ez["zz_empty"] = {fid: set() for fid in m.paths}
+                check(cz, ez, "with-empty-platform")
             # (d) CLI with -p subsets
             if cli_every and si % cli_every == 0:
                 dbs = {}
